@@ -8,7 +8,7 @@ from .. import gen, impl, oracle, ser, stream
 
 ID = "C08"
 LEVEL = "proof"
-PROPS_MODULE = "SymmModel.Props.C08All3"
+PROPS_MODULE = "SymmModel.Props.C08All4"
 THEOREMS = [
     "SymmModel.C08.locateAll_total",
     "SymmModel.C08.toDenseA_get",
@@ -99,10 +99,16 @@ THEOREMS = [
     "SymmModel.C08.reshape_one_unfuse_call",
     "SymmModel.C08.reshape_toDense_one_call",
     "SymmModel.C08.einsum_perm_toDense",
-    "SymmModel.C08.einsum_perm_dense_kernel"
+    "SymmModel.C08.einsum_perm_dense_kernel",
+    "SymmModel.C08.calls_toDense",
+    "SymmModel.C08.reshape_toDense_calls",
+    "SymmModel.C08.reshape_toDense_runs",
+    "SymmModel.C08.fuse_forward_rel",
+    "SymmModel.C08.fuse_position_injective",
+    "SymmModel.C08.fuse_position_functional"
 ]
-LEAN_FILES = ["SymmModel.Props.C08", "SymmModel.Proofs.DenseLemmas", "SymmModel.Props.C08b", "SymmModel.Props.C08All", "SymmModel.Proofs.DenseMore", "SymmModel.Props.C08c", "SymmModel.Props.C08All2", "SymmModel.Proofs.Dense3a", "SymmModel.Proofs.Dense3b", "SymmModel.Proofs.Dense3d", "SymmModel.Props.C08d", "SymmModel.Props.C08All3", "SymmModel.Proofs.Dense4a", "SymmModel.Proofs.Dense4b", "SymmModel.Proofs.Dense4c"]
-PLANNED = ["reshape at position level for plans with more than one call (content level proved for every certified plan)", "einsum with traced labels at dense level beyond the matrix trace"]
+LEAN_FILES = ["SymmModel.Props.C08", "SymmModel.Proofs.DenseLemmas", "SymmModel.Props.C08b", "SymmModel.Props.C08All", "SymmModel.Proofs.DenseMore", "SymmModel.Props.C08c", "SymmModel.Props.C08All2", "SymmModel.Proofs.Dense3a", "SymmModel.Proofs.Dense3b", "SymmModel.Proofs.Dense3d", "SymmModel.Props.C08d", "SymmModel.Props.C08All3", "SymmModel.Proofs.Dense4a", "SymmModel.Proofs.Dense4b", "SymmModel.Proofs.Dense4c", "SymmModel.Props.C08e", "SymmModel.Props.C08All4", "SymmModel.Proofs.Dense5a", "SymmModel.Proofs.Dense5f"]
+PLANNED = ["reshape at position level for plans containing unfuse or expand calls (fuse-call plans proved", "content level for every certified plan)"]
 RULE = ("every listed operation on random abelian arrays (all symmetries, static/generic, sparse, real/complex) "
         "through method / symmray function / autoray dispatch; binary operations on operands with different stored "
         "sectors; diagonal vectors missing charges; BlockVector arithmetic and every exported elementwise function. "
